@@ -18,7 +18,7 @@ const char *MC_ASSUME[] = {"G_geo (src/geo.h, dgraph.h) verified symmetric with 
 const char *MC_CTR_NAMES[] = {"oracle_unavailable", "pairs", "distance_success", "distance_refused", "ij_roundtrips", "ij_square_points", "unit_step_edges", "longest_distance_seen", NULL};
 const char *MC_MAX_NAMES[] = {"longest_successful_distance", NULL};
 #define CANARY 0xC0FFEE0DDEADBEEFull
-enum { OP_FROM, OP_DIST, OP_IJ, OP_BALL, OP_IJX, OP_MISM };
+enum { OP_FROM, OP_DIST, OP_IJ, OP_BALL, OP_IJX, OP_MISM, OP_SQ, OP_MISMX };
 
 static int16_t *bd16;
 static int32_t *bq;
@@ -103,6 +103,47 @@ static int G_init;
 #define MAXB 4096
 static uint64_t ballc[MAXB];
 static int balld[MAXB];
+// IJ square around the origin's own coordinates: back-then-forward (ij -> cell -> ij)
+static void ij_square(uint64_t h, int R) {
+    CoordIJ o;
+    MC_CHECK(cellToLocalIj(h, h, 0, &o) == 0, "cellToLocalIj(%" PRIx64 ", itself) failed", h);
+    for (int di = -R; di <= R; di++)
+        for (int dj = -R; dj <= R; dj++) {
+            CoordIJ ij = {o.i + di, o.j + dj}, back;
+            uint64_t c = CANARY;
+            mc_trans(2);
+            mc_ctr(5, 1);
+            H3Error e = localIjToCell(h, &ij, 0, &c);
+            if (e) {
+                MC_CHECK(e <= 15, "localIjToCell returned undocumented code %d", e);
+                continue;
+            }
+            MC_CHECK(spec_valid(c) && spec_res(c) == spec_res(h), "localIjToCell(%" PRIx64 ",(%d,%d)) = %" PRIx64 " is not a valid cell of the origin's resolution", h, ij.i, ij.j, c);
+            if (cellToLocalIj(h, c, 0, &back) == 0)
+                MC_CHECK(back.i == ij.i && back.j == ij.j, "localIjToCell(%" PRIx64 ",(%d,%d)) = %" PRIx64 " but cellToLocalIj of that cell is (%d,%d)", h, ij.i, ij.j, c, back.i, back.j);
+        }
+}
+static void op_sq(const McArg *a) {
+    if (spec_is_pent_bc(spec_bc(a[0].u))) mc_nontrivial();
+    ij_square(a[0].u, (int)a[1].i);
+}
+// mixed-resolution pairs on arbitrary base cells: E_RES_MISMATCH is required whatever the two cells are
+static void op_mismx(const McArg *a) {
+    uint64_t h = a[0].u;
+    int r2 = (int)a[1].i;
+    static U64Vec other[4];
+    if (r2 < 0 || r2 > 2 || spec_res(h) == r2) return;
+    if (!other[r2].n) dom_full(r2, &other[r2]);
+    mc_nontrivial();
+    for (size_t i = 0; i < other[r2].n; i++) {
+        int64_t d = -77;
+        mc_trans(2);
+        H3Error e = gridDistance(h, other[r2].v[i], &d);
+        MC_CHECK(e == E_RES_MISMATCH, "gridDistance(%" PRIx64 ",%" PRIx64 ") with differing resolutions returned %d (out %" PRId64 ")", h, other[r2].v[i], e, d);
+        e = gridDistance(other[r2].v[i], h, &d);
+        MC_CHECK(e == E_RES_MISMATCH, "gridDistance(%" PRIx64 ",%" PRIx64 ") with differing resolutions returned %d", other[r2].v[i], h, e);
+    }
+}
 static void op_ball(const McArg *a) {
     uint64_t h = a[0].u;
     int R = (int)a[1].i;
@@ -142,24 +183,7 @@ static void op_ball(const McArg *a) {
             }
         }
     }
-    // IJ square around the origin's own coordinates: back-then-forward
-    CoordIJ o;
-    MC_CHECK(cellToLocalIj(h, h, 0, &o) == 0, "cellToLocalIj(%" PRIx64 ", itself) failed", h);
-    for (int di = -R; di <= R; di++)
-        for (int dj = -R; dj <= R; dj++) {
-            CoordIJ ij = {o.i + di, o.j + dj}, back;
-            uint64_t c = CANARY;
-            mc_trans(2);
-            mc_ctr(5, 1);
-            H3Error e = localIjToCell(h, &ij, 0, &c);
-            if (e) {
-                MC_CHECK(e <= 15, "localIjToCell returned undocumented code %d", e);
-                continue;
-            }
-            MC_CHECK(spec_valid(c) && spec_res(c) == spec_res(h), "localIjToCell(%" PRIx64 ",(%d,%d)) = %" PRIx64 " is not a valid cell of the origin's resolution", h, ij.i, ij.j, c);
-            if (cellToLocalIj(h, c, 0, &back) == 0)
-                MC_CHECK(back.i == ij.i && back.j == ij.j, "localIjToCell(%" PRIx64 ",(%d,%d)) = %" PRIx64 " but cellToLocalIj of that cell is (%d,%d)", h, ij.i, ij.j, c, back.i, back.j);
-        }
+    ij_square(h, R);
 }
 static void op_ijx(const McArg *a) {
     uint64_t h = a[0].u;
@@ -201,8 +225,8 @@ static void op_mism(const McArg *a) {
         MC_CHECK(e == E_RES_MISMATCH, "gridDistance(%" PRIx64 ",%" PRIx64 ") with differing resolutions returned %d", o, h, e);
     }
 }
-const McOp MC_OPS[] = {{"from", "h", op_from}, {"dist", "hh", op_dist}, {"ij", "hh", op_ij}, {"ball", "hi", op_ball}, {"ijx", "hiii", op_ijx}, {"mism", "h", op_mism}};
-const int MC_NOPS = 6;
+const McOp MC_OPS[] = {{"from", "h", op_from}, {"dist", "hh", op_dist}, {"ij", "hh", op_ij}, {"ball", "hi", op_ball}, {"ijx", "hiii", op_ijx}, {"mism", "h", op_mism}, {"sq", "hi", op_sq}, {"mismx", "hi", op_mismx}};
+const int MC_NOPS = 8;
 
 static int g_res;
 static void ph_from(void *u) {
@@ -228,13 +252,44 @@ static void ph_ball(void *u) {
         if (i % 16 == 0) MC_RUN(OP_MISM, H(g_dom.v[i]));
     }
 }
+static void ph_sq(void *u) {
+    int64_t N = spec_numcells(g_res);
+    int R = g_res == 0 ? 3 : 8;
+    for (int64_t i = mc_wid; i < N; i += mc_nw) {
+        if (mc_expired()) return;
+        MC_RUN(OP_SQ, H(spec_cell_at(g_res, i)), I(R));
+    }
+}
+static void ph_mismx(void *u) {
+    uint64_t idx = 0;
+    for (int r = 0; r <= 2; r++) {
+        int64_t N = spec_numcells(r);
+        for (int64_t i = 0; i < N; i += (r == 2 ? 7 : 1))
+            for (int r2 = 0; r2 <= 2; r2++, idx++) {
+                if (r2 == r || !mc_mine(idx)) continue;
+                if (mc_expired()) return;
+                MC_RUN(OP_MISMX, H(spec_cell_at(r, i)), I(r2));
+            }
+    }
+}
 static void ph_ijx(void *u) {
-    static const int64_t xs[] = {INT_MIN, INT_MIN + 1, -1000000, -1, 0, 1, 7, 1000000, INT_MAX / 3, INT_MAX - 1, INT_MAX};
+    // extreme coordinates: the int32 limits, and the multiples k*2^31/7 (rounded both ways, both signs) around which 3i-j, 2i+j ... of the
+    // aperture-7 up-moves wrap modulo 2^32
+    static int64_t xs[64];
+    static int nx;
+    if (!nx) {
+        static const int64_t base[] = {INT_MIN, INT_MIN + 1, -1000000, -1, 0, 1, 7, 1000000, INT_MAX / 3, INT_MAX - 1, INT_MAX};
+        for (int i = 0; i < 11; i++) xs[nx++] = base[i];
+        for (int k = 1; k <= 6; k++) {
+            int64_t v = (int64_t)k * 2147483648LL / 7;
+            xs[nx++] = v, xs[nx++] = v + 1, xs[nx++] = -v, xs[nx++] = -v - 1;
+        }
+    }
     static const int64_t modes[] = {0, 1, 7, 2147483648LL};
     uint64_t idx = 0;
     for (size_t c = 0; c < g_dom.n; c++)
-        for (int i = 0; i < 11; i++)
-            for (int j = 0; j < 11; j++)
+        for (int i = 0; i < nx; i++)
+            for (int j = 0; j < nx; j++)
                 for (int m = 0; m < 4; m++, idx++) {
                     if (!mc_mine(idx)) continue;
                     if (m && (i > 1 || j > 1)) continue;
@@ -247,7 +302,8 @@ int main(int argc, char **argv) {
     g_R = mc_thorough ? 8 : 5;
     snprintf(mc_bounds, sizeof mc_bounds,
              "all ordered pairs of FULL(0..%d) (quick: plus every origin of the 12 pentagon base cells at resolution 3 x all cells); balls of radius %d around FINE level %d origins at resolutions %d..15 with the (2R+1)^2 IJ square; "
-             "extreme IJ x modes on IDX base cells",
+             "extreme IJ (int32 limits and k*2^31/7 wrap points) x modes on IDX base cells; IJ squares of side 17 from every origin of the complete resolutions; "
+             "mixed-resolution pairs FULL(a) x FULL(b), a != b <= 2, both orders",
              fullmax, g_R, mc_thorough ? 1 : 2, fullmax + 1);
     for (g_res = 0; g_res <= fullmax; g_res++) {
         dg_build_parallel(g_res);
@@ -273,5 +329,11 @@ int main(int argc, char **argv) {
     g_dom.n = 0;
     dom_idx_bases(1, &g_dom);
     mc_phase("extreme IJ and modes", ph_ijx, NULL);
+    for (g_res = 0; g_res <= fullmax; g_res++) {
+        char nm[64];
+        snprintf(nm, sizeof nm, "IJ squares (ij->cell->ij) from every origin of FULL(%d)", g_res);
+        mc_phase(nm, ph_sq, NULL);
+    }
+    mc_phase("mixed-resolution pairs over all base cells", ph_mismx, NULL);
     return mc_finish();
 }
